@@ -466,3 +466,86 @@ def _path_equivalence_inner(name, path, files, data, ref_lk, ref, root, mods):
         else:
             raise ValueError(path)
         return (got, ref)
+
+
+_C20_CORPUS = """<%page args="pa=_('page-arg')"/>
+<%! mod = _('module-block') %>
+text _('decoy-text') here
+## _('decoy-comment')
+<%doc> _('decoy-doc') </%doc>
+<%text> _('decoy-texttag') </%text>
+${_('expression')}
+${x | _('filter-list')}
+% if _('if-line'):
+% elif _('elif-line'):
+% endif
+% for i in _('for-line'):
+% endfor
+% try:
+% except _('except-clause'):
+% endtry
+<%
+    a = _('code-block-2')
+    b = 1
+    c = _('code-block-4')
+%>
+<%def name="d(a=_('def-signature'))">
+  ${_('inside-def')}
+</%def>
+<%block name="b" args="a=_('block-args')">
+</%block>
+<%call expr="d(_('call-expr'))">
+  ${_('inside-call')}
+</%call>
+<%self:d a="${_('nsdef-attr')}">
+</%self:d>
+<%def
+   name="e(a=_('multiline-tag-def'))">
+</%def>
+${_('multi',
+    'ignored') + _('multiline-expression-2')}
+"""
+
+
+def extract_template(which, tmpl):
+    """[(line, message, comments)] from the real extractor"""
+    import io
+    if which == "babel":
+        from mako.ext import babelplugin
+        return [(r[0], r[2] if isinstance(r[2], str) else r[2][0], list(r[3]))
+                for r in babelplugin.extract(io.BytesIO(tmpl.encode("utf-8")), ["_"], ["TRANSLATORS:"], {"encoding": "utf-8"})]
+    try:
+        from lingua.extractors import register_extractors
+        from mako.ext.linguaplugin import LinguaMakoExtractor
+    except ImportError:
+        return None
+    register_extractors()
+
+    class Opt:
+        keywords = []
+        domain = None
+        comment_tag = True
+
+    ex = LinguaMakoExtractor({"comment-tags": "TRANSLATORS:"})
+    return [(m.location[1], m.msgid, m.comment) for m in ex("t.mako", Opt, io.StringIO(tmpl))]
+
+
+def extract_corpus(which, leading_blank_lines):
+    """[(marker, line it is written on, lines it is reported at)] for every non-decoy marker, plus decoys that were reported"""
+    import re
+    tmpl = "\n" * leading_blank_lines + _C20_CORPUS
+    res = extract_template(which, tmpl)
+    if res is None:
+        return None
+    out = []
+    for i, ln in enumerate(tmpl.split("\n"), 1):
+        for mk in re.findall(r"_\('([a-z0-9-]+)'", ln):
+            got = [r[0] for r in res if r[1] == mk]
+            if mk.startswith("decoy"):
+                if got:
+                    out.append((mk, None, got))
+            elif mk == "multi":
+                out.append((mk, i, got))
+            else:
+                out.append((mk, i, got))
+    return out
